@@ -80,6 +80,11 @@ type Ctx struct {
 	// mean allocating a timer and a closure per request.
 	timer *time.Timer
 	armed bool
+
+	// timedOut is set by the cancel timer before it looks for the connection
+	// to cancel on. The write loop publishes the connection and then looks at
+	// this, so whichever of the two comes second resets the stream.
+	timedOut atomic.Bool
 }
 
 // acquire takes ownership of the Ctx for the connection. It reports false once
@@ -155,6 +160,8 @@ func (ctx *Ctx) fireTimeout() {
 	// timer goroutine forever.
 	ctx.resolve(ErrRequestCanceled)
 
+	ctx.timedOut.Store(true)
+
 	if c := ctx.conn.Load(); c != nil {
 		c.cancel(ctx)
 	}
@@ -211,6 +218,7 @@ func acquireCtx(req *fasthttp.Request, res *fasthttp.Response) *Ctx {
 	ctx.resolved = false
 	ctx.finished = false
 	ctx.armed = false
+	ctx.timedOut.Store(false)
 
 	ctx.conn.Store(nil)
 
